@@ -247,7 +247,7 @@ def main(argv=None):
         print("not reproduced")
         return 0
     quick = a.tier == "quick"
-    ev = common.Evidence(PROP, a.tier, a.seed, "fault_enumeration", "every corpus script x every network event index k x cut kind, re-executed deterministically with the fault placed at event k; a run is non-trivial when the fault actually fired; distinct = distinct run digests (hash of the full network event log, backend call log and transcripts) Includes a pipelined script and a download whose peer never reads the data connection.")
+    ev = common.Evidence(PROP, a.tier, a.seed, "fault_enumeration", "every corpus script x every network event index k x cut kind, re-executed deterministically with the fault placed at event k; a run is non-trivial when the fault actually fired; distinct = distinct run digests (hash of the full network event log, backend call log and transcripts) Includes a pipelined script, a download whose peer never reads the data connection, and sessions that send an undecodable / over-long command line with a passive listener open.")
     rep = common.Reporter(PROP, ev)
     names = sorted({**corpus.scripts(), **corpus.extra_scripts()})
     seeds = [a.seed * 1000 + i for i in range(1 if quick else 6)]
@@ -296,6 +296,7 @@ def main(argv=None):
         # and the download whose peer never reads: control-only cuts and shutdown at every event
         focus += [c for c in plan if c["script"] == "stalled_reader" and c["cut"] in ("ctl_rst", "ctl_fin", "server_close")]
         focus += [c for c in plan if c["script"] == "flood_quit" and c["cut"] in ("vanish_rst", "ctl_rst", "ctl_fin", "server_close")]
+        focus += [c for c in plan if c["script"] in ("bad_line", "long_line") and c["cut"] in ("vanish_rst", "ctl_rst", "ctl_fin", "server_close")]
         # step-granular sub-sweep: Server.close() at every event-loop step of the connect / greeting
         # / login window (a connection accepted but whose dispatcher has not started yet is
         # unknown to close())
